@@ -211,7 +211,9 @@ def doc_strategy():
                                               "m": st.fixed_dictionaries({}, optional={"k": st.integers(0, 2)})})
     good = obj.map(json.dumps)
     nonobj = st.sampled_from(["99999999999999999999", '{"n": -9223372036854775809}', '{"name": 1e400, "n": 1}', "9223372036854775807", "5", "5.0", "[1, 2]", "[1, 1.0, true]", "\"str\"", "null", "true", "1.5", "-0.0", "0"])
-    bad = st.sampled_from(["{", "{'a': 1}", "nope", "", "  ", "{\"a\": }", "[1,", "{\"name\": 1} trailing"])
+    bad = st.sampled_from(["{", "{'a': 1}", "nope", "", "  ", "{\"a\": }", "[1,", "{\"name\": 1} trailing",
+                           # valid JSON wrapped in characters that JSON does not count as white space (only space, tab, CR, LF are)
+                           "\x0c{\"name\": 1}", "{\"name\": 1}\u00a0", "\u2028{\"n\": 1}", "\x0b5", "{\"name\": \"a\"}\x1c", "\u3000[1, 2]", "{\"n\": 2}\ufeff"])
     return st.one_of(good, good, good, nonobj, bad)
 
 
